@@ -16,7 +16,7 @@ AUDIT_IMPORT = ("From Coq Require Import ZArith List Bool.\nImport ListNotations
 EXPLAIN = "explain"
 CASE_TYPE = "case"
 AXIOM_ALLOW = []
-SHARD = 1500
+SHARD = 900
 SEARCH_MAX = 3000      # size of the enlarged search after a model-only mismatch
 THEOREMS = [
     ('c16_heap_preserved',
@@ -42,7 +42,7 @@ THEOREMS = [
     ('c16_height_partial',
      'forall k : Z, 0 <= k <= 14 -> let n := 2 ^ k in (height (fam step_append n) <= 5 * Z.log2 (n + 1) + 20 /\\ Heap (fam step_append n) /\\ tsize isize (fam step_append n) = n) /\\ (height (fam step_front n) <= 5 * Z.log2 (n + 1) + 20 /\\ Heap (fam step_front n) /\\ tsize isize (fam step_front n) = n) /\\ (height (fam step_rotate n) <= 5 * Z.log2 (n + 1) + 20 /\\ Heap (fam step_rotate n) /\\ tsize isize (fam step_rotate n) = n)'),
     ('c16_height_tight_partial',
-     'forall k : Z, 0 <= k <= 13 -> let n := 2 ^ k in Forall (fun step => height (fam step n) <= 3 * Z.log2 (n + 1) + 12 /\\ Heap (fam step n) /\\ tsize isize (fam step n) = n) [step_append; step_front; step_rotate; step_deque; step_middle; step_mergebuild]'),
+     'forall k : Z, 0 <= k <= 10 -> let n := 2 ^ k in Forall (fun step => height (fam step n) <= 3 * Z.log2 (n + 1) + 12 /\\ Heap (fam step n) /\\ tsize isize (fam step n) = n) [step_append; step_front; step_rotate; step_deque; step_middle; step_mergebuild]'),
 ]
 RULE = ("the multi-treap histories of C03, including move = remove_at followed by insert_at of the returned item object, whose new node "
         "draws a new priority (two item kinds; priorities random / tiny range with ties / all equal / increasing / "
@@ -747,12 +747,17 @@ MANIFEST = {
             "c16_history_priorities (history level: priorities are created once, never changed, and stay attached in order to their "
             "elements; a move = remove_at + insert_at of the returned item object carries the value to a NEW node with the next priority); c16_canonical (distinct priorities), c16_canonical_ties and c16_cartesian (no distinctness needed: the tree IS "
             "the Cartesian tree of its in-order list, independent of the history); c16_model_check_spec_check. Height: PARTIAL "
-            "(c16_height_partial) - finite computations inside Coq for the named adversarial families (sorted appends, front inserts, "
-            "insert + split-and-swap) with the modelled generator for n = 2^k, k <= 14, plus an implementation-level search up to 10^6 "
-            "nodes on every run. Tied to the code on every run through the public node fields (full shape, priorities, items).",
-    "level_note": "Partial: the bound height <= 5*log2(n+1)+20 is a probabilistic statement about the generator and cannot be a universal "
-                  "theorem; what is proved is the finite family evaluation. Trusted: Coq kernel + vm_compute; Rust executor; Python "
-                  "printer (incl. its prediction of the draws of the process-wide LCG, which the executor resets at the start of every line, cross-checked against the Coq model of the generator in "
-                  "every native case); sampled correspondence.",
+            "(c16_height_partial, c16_height_tight_partial) - finite computations inside Coq for named adversarial families (sorted appends, front inserts, "
+            "insert + split-and-swap; with the tighter bound 3*log2(n+1)+12 also alternating ends, middle inserts, merge-building) with the modelled generator for n = 2^k, k <= 14 resp. 10, plus an implementation-level search on every run, on the debug and the release "
+            "executor, up to 1.1*10^6 nodes: sixteen families (one treap, k treaps filled round robin, pieces built on T threads - one after the other and concurrently - and merged on one thread, "
+            "building blocks only, Treap::default pieces, doubling by clone where Clone exists), exact heap invariant on every edge, subtree sizes, unchanged priorities, height <= 3*floor(log2(n+1))+12, "
+            "and the hash of every priority drawn against the modelled stream (bit for bit; past 2^20 draws; concurrent threads as a multiset). "
+            "Tied to the code on every run through the public node fields (full shape, priorities, items), including nodes created on other threads "
+            "(one process-wide stream), through TreapNode::new directly, after burnt draws (stream offsets up to 10^6, the first 32-bit collision of the stream inside the real insert_at), "
+            "family histories up to 300 (quick) / 3000 (thorough) nodes and split_by with non-monotone predicates.",
+    "level_note": "Partial: the bounds height <= 5*log2(n+1)+20 / 3*log2(n+1)+12 are probabilistic statements about the generator and cannot be universal "
+                  "theorems; what is proved is the finite family evaluation. Trusted: Coq kernel + vm_compute; Rust executor (its family search checks heap order, sizes, born-with priorities and heights itself); Python "
+                  "printer (incl. its prediction of the draws of the process-wide LCG - one draw per node creation of a line, on whichever thread, burnt draws included -, which the executor resets at the start of every line, cross-checked against the Coq model of the generator in "
+                  "every native case without burnt draws; hash and Cartesian-tree height of the predicted stream for the search); sampled correspondence.",
     "technique": "Coq proof over Gallina model + vm_compute correspondence batches + implementation-level search",
 }
